@@ -7,7 +7,8 @@
 (* of a behaviour: the real volume produces them and FatTree_Trace judges.       *)
 EXTENDS FatTree, Json
 CONSTANTS Total, MaxLen, D, Neg,     \* Neg: include calls the plain tree cannot do
-          WithFill                  \* include Fill (write until the volume refuses) - for random walks
+          WithFill,                 \* include Fill (write until the volume refuses) - for random walks
+          Frag                      \* TRUE: the fragmentation family instead of the full alphabet (see FragNext)
 VARIABLES hist, tag
 gvars == <<vars, hist, tag>>
 Offs(p) == {0, 1, 3, 4, 5} \cup {Len(tree[p].data), Len(tree[p].data) + 1}
@@ -31,12 +32,33 @@ Next ==
      \/ \E p \in Files : CanWrite(p) /\ Len(tree[p].data) > 0 /\ Go(TRUE, TruncT(p)) /\ Log([a |-> "Trunc", p |-> p]) /\ UNCHANGED tag
      \/ \E p, q \in Files : p # q /\ Parent[p] = Parent[q] /\ (CanRename(p, q) \/ (Neg /\ p = "A" /\ ~Exists(p)))
            /\ Go(CanRename(p, q), RenameT(p, q)) /\ Log([a |-> "Rename", p |-> p, q |-> q]) /\ UNCHANGED tag
+     \/ \E d, e \in Dirs : d # e /\ (CanRenameDir(d, e) \/ (Neg /\ Exists(d)))
+           /\ Go(CanRenameDir(d, e), RenameDirT(d, e)) /\ Log([a |-> "Rename", p |-> d, q |-> e]) /\ UNCHANGED tag
      \/ \E p \in Paths : (CanRemove(p) \/ (Neg /\ (p = "D" \/ p = "A")))
            /\ Go(CanRemove(p), RemoveT(p)) /\ Log([a |-> "Remove", p |-> p]) /\ UNCHANGED tag
      \/ /\ WithFill /\ \E p \in Files : IsFile(p) /\ Len(tree[p].data) <= MaxLen
            /\ Go(TRUE, FillT(p, FillCap(p), tag)) /\ Log([a |-> "Fill", p |-> p, tag |-> tag]) /\ tag' = tag + 1
      \/ /\ Neg /\ ~Exists("b") /\ Go(FALSE, tree) /\ Log([a |-> "WriteAt", p |-> "b", off |-> 0, len |-> 1, tag |-> tag]) /\ tag' = tag + 1
-Spec == Init /\ [][Next]_gvars
-Emit == (Len(hist) = D) => PrintT(<<"BEH", ToJson(hist)>>)
+\* The fragmentation family (bounded-exhaustive): every history of length D of Create / Append (one
+\* cluster and a bit, or two whole clusters: chains grow across cluster boundaries) / Remove / Trunc over two
+\* files - so that chains interleave, are released and re-used in every order - followed by
+\* Create L1, Fill L1: whatever the history, ALL space the plain tree says is free must be usable.
+\* Every history starts from two files of two clusters each, written one after the other (FragPrefix).
+FragFiles == {"A", "b"}
+FragPrefix == << [a |-> "Create", p |-> "A"], [a |-> "Append", p |-> "A", len |-> 8, tag |-> 1],
+                [a |-> "Create", p |-> "b"], [a |-> "Append", p |-> "b", len |-> 8, tag |-> 2] >>
+FragTree == [p \in Paths |-> IF p = "A" THEN File(Tags(8, 1)) ELSE IF p = "b" THEN File(Tags(8, 2)) ELSE None]
+FP == Len(FragPrefix)
+FragNext ==
+  \/ /\ Len(hist) < FP + D
+     /\ \/ \E p \in FragFiles : ~Exists(p) /\ Go(CanCreate(p), CreateT(p)) /\ Log([a |-> "Create", p |-> p]) /\ UNCHANGED tag
+        \/ \E p \in FragFiles, n \in {5, 8} : CanWrite(p) /\ Go(TRUE, AppendT(p, n, tag)) /\ Log([a |-> "Append", p |-> p, len |-> n, tag |-> tag]) /\ tag' = tag + 1
+        \/ \E p \in FragFiles : CanWrite(p) /\ Len(tree[p].data) > 0 /\ Go(TRUE, TruncT(p)) /\ Log([a |-> "Trunc", p |-> p]) /\ UNCHANGED tag
+        \/ \E p \in FragFiles : IsFile(p) /\ Len(tree[p].data) > 0 /\ Go(TRUE, RemoveT(p)) /\ Log([a |-> "Remove", p |-> p]) /\ UNCHANGED tag
+  \/ /\ Len(hist) = FP + D /\ Go(CanCreate("L1"), CreateT("L1")) /\ Log([a |-> "Create", p |-> "L1"]) /\ UNCHANGED tag
+  \/ /\ Len(hist) = FP + D + 1 /\ Go(IsFile("L1"), IF IsFile("L1") THEN FillT("L1", FillCap("L1"), tag) ELSE tree) /\ Log([a |-> "Fill", p |-> "L1", tag |-> tag]) /\ tag' = tag + 1
+FragInit == tree = FragTree /\ total = Total /\ out = "ok" /\ tag = 3 /\ hist = FragPrefix
+Spec == (IF Frag THEN FragInit ELSE Init) /\ [][IF Frag THEN FragNext ELSE Next]_gvars
+Emit == (Len(hist) = (IF Frag THEN FP + D + 2 ELSE D)) => PrintT(<<"BEH", ToJson(hist)>>)
 View == <<tree, hist>>
 ===============================================================================
